@@ -76,6 +76,27 @@ def handle : List String → Option String
     let dim ← dim.toNat?
     let xs ← parseRats? xs; let rows ← parseRows? rows; let xnew ← parseRats? xnew
     pure (showExc (nakSpline xs rows dim xnew))
+  | ["c20", "regulargrid", xs, ys, grid, px, py] => do
+    let xs ← parseRats? xs; let ys ← parseRats? ys; let grid ← parseRows? grid
+    let px ← parseRats? px; let py ← parseRats? py
+    match regularGrid xs ys grid (px.zip py) with
+    | .error e => pure ("err " ++ showErr e)
+    | .ok r => pure ("ok " ++ showRats r)
+  | ["c20", "sun", mjd, frac] => do
+    let mjd ← parseRat? mjd; let frac ← parseRat? frac
+    let jd := mjd - sunEpoch
+    pure s!"{showRat (sunMeanLongitude sunVl0 sunVlRate jd)} {showRat (gmstAngle sunGst0 sunGstRate jd frac)}"
+  | ["c20", "deriv", kind, dim, xs, rows, xnew, dx] => do
+    let dim ← dim.toNat?; let dx ← parseRat? dx
+    let xs ← parseRats? xs; let rows ← parseRows? rows; let xnew ← parseRats? xnew
+    let f ← (match kind with
+      | "spline" => some (nakSpline xs rows dim)
+      | "barycentric" => some (barycentric xs rows dim)
+      | "linear" => some (linear xs rows dim)
+      | _ => none)
+    match interpDeriv f xnew dx with
+    | .error e => pure ("err " ++ showErr e)
+    | .ok (v, d) => pure ("ok " ++ showRows v ++ " " ++ showRows d)
   | ["c20", "normsq", rows] => do
     let rows ← parseRows? rows
     pure (showRats (rows.map normSq))
